@@ -107,6 +107,9 @@ def decodeCursor (j : J) : Except String DecodedCursor :=
       let reverse ← decBool (j.get "reverse")
       .ok (.column { pageSize, order, bottom, paginationID, reverse, rest := { column, filters } })
     | _ => .error "type"
+  -- `json.Unmarshal("null", &q)` leaves the interface nil; the unchecked type
+  -- assertion `q.(*ColumnPaginatedQuery)` that follows panics
+  | .null => .error "panic: null cursor"
   | _ => .error "type"
 
 end Ledger.Query
